@@ -531,6 +531,12 @@ func (q *ListObjectsQuery) Execute(
 		return nil, serverErrors.ValidationError(typesystem.ErrInvalidSchemaVersion)
 	}
 
+	// Same check as Check's validateCheckRequest: the candidate Checks would reject such a context with
+	// an error that this command reports as internal.
+	if err := validation.ValidateStruct(req.GetContext()); err != nil {
+		return nil, serverErrors.ValidationError(&InvalidContextError{Cause: err})
+	}
+
 	for _, ctxTuple := range req.GetContextualTuples().GetTupleKeys() {
 		if err := validation.ValidateTupleForWrite(typesys, ctxTuple); err != nil {
 			return nil, serverErrors.HandleTupleValidateError(err)
@@ -716,6 +722,12 @@ func (q *ListObjectsQuery) ExecuteStreamed(ctx context.Context, req *openfgav1.S
 
 	if !typesystem.IsSchemaVersionSupported(typesys.GetSchemaVersion()) {
 		return nil, serverErrors.ValidationError(typesystem.ErrInvalidSchemaVersion)
+	}
+
+	// Same check as Check's validateCheckRequest: the candidate Checks would reject such a context with
+	// an error that this command reports as internal.
+	if err := validation.ValidateStruct(req.GetContext()); err != nil {
+		return nil, serverErrors.ValidationError(&InvalidContextError{Cause: err})
 	}
 
 	for _, ctxTuple := range req.GetContextualTuples().GetTupleKeys() {
